@@ -1,8 +1,10 @@
 #!/bin/sh
 # Regression over all kept seeded changes: every change must be caught by its property's quick check.
+# A change whose meta.json carries "superseded" (a later repair removed the code it alters) is skipped.
 cd "$(dirname "$0")/.."
 for d in seeded/*/; do
   id=$(basename $d)
+  if grep -q '"superseded"' $d/meta.json 2>/dev/null; then echo "$id SKIPPED (superseded, see meta.json)"; continue; fi
   printf "%s " "$id"
   tools/seeded.py $d 2>&1 | tail -1
 done
